@@ -52,6 +52,8 @@ class StateScenario(Scenario):
     # =========================================================================== header
     def gen_cfg(self, rng):
         over = {}
+        if self.prop == "C06":
+            over = {"p_validator": rng.choice([0.15, 0.3, 0.5])}
         if self.prop == "C12":
             over = {"p_default": rng.choice([0.6, 0.9]), "p_callable": rng.choice([0.3, 0.6])}
         if self.prop == "C15":
@@ -506,7 +508,7 @@ class StateScenario(Scenario):
         if name == "append":
             op["v"] = one()
         elif name in ("insert", "setitem"):
-            op["i"] = rng.randint(-n - 1, n + 1) if rng.random() < 0.3 else (rng.randrange(n) if n else 0)
+            op["i"] = rng.randint(-n - 2, n + 2) if rng.random() < (0.6 if self.prop == "C06" else 0.3) else (rng.randrange(n) if n else 0)
             op["v"] = one()
         elif name in ("extend", "iadd", "slice_set"):
             op["vs"] = [one() for _ in range(rng.choice([0, 1, 2, 3]))]
